@@ -849,6 +849,13 @@ class Interp:
             return self.abstract_of(dest_ty, frozenset().union(*[tags_of(a) for a in args]) if args else frozenset())
         path = fn.get("path", "")
         rpath = fn.get("rpath") or path
+        if not self.mono:
+            op = (getattr(self.facts, "helper_summary", None) or {}).get(rpath) or (getattr(self.facts, "helper_summary", None) or {}).get(path)
+            if op:
+                # a crate helper generic over the k-mer type that the helper lemmas identified, for EVERY k-mer type, with a trait operation:
+                # in the generic tables it is that operation
+                fn = {"path": "Kmer::" + op, "trait": "Kmer", "key": "Kmer::" + op, "targs": fn.get("targs"), "crate": fn.get("crate")}
+                path = rpath = fn["path"]
         site = term.get("ln")
         self.trace.append((rpath, path, args, site, caller["path"]))
         for pp in PANIC_PATHS:
